@@ -73,9 +73,9 @@ class MultiFit(FitBase):
         _combined_argument_formatters = []
         for _fit in self._fits:
             for _argument_formatter in _fit._get_model_function_argument_formatters():
-                if _argument_formatter.name not in _included_argument_names:
+                if _argument_formatter.arg_name not in _included_argument_names:  # (not the display name: that can be reassigned)
                     _combined_argument_formatters.append(_argument_formatter)
-                    _included_argument_names.add(_argument_formatter.name)
+                    _included_argument_names.add(_argument_formatter.arg_name)
         return _combined_argument_formatters
 
     def _get_model_function_parameter_formatters(self):
@@ -83,9 +83,9 @@ class MultiFit(FitBase):
         _combined_parameter_formatters = []
         for _fit in self._fits:
             for _parameter_formatter in _fit._get_model_function_parameter_formatters():
-                if _parameter_formatter.name not in _included_parameter_names:
+                if _parameter_formatter.arg_name not in _included_parameter_names:
                     _combined_parameter_formatters.append(_parameter_formatter)
-                    _included_parameter_names.add(_parameter_formatter.name)
+                    _included_parameter_names.add(_parameter_formatter.arg_name)
         return _combined_parameter_formatters
 
     def _invalidate_total_error_cache(self):
@@ -921,6 +921,19 @@ class MultiFit(FitBase):
                 _fit.assign_model_function_latex_expression(latex_expression_format_string=latex_expression_format_string)
         else:
             self._fits[fit_index].assign_model_function_latex_expression(latex_expression_format_string=latex_expression_format_string)
+
+    def assign_parameter_names(self, **par_names_dict):
+        # a parameter shared by several fits has one formatter per fit: all of them get the new display name
+        _keys = list(par_names_dict.keys())
+        with warnings.catch_warnings():
+            warnings.filterwarnings("ignore", message="Could not assign all names.*")
+            for _fit in self._fits:
+                _fit.assign_parameter_names(**par_names_dict)
+                for _arg_formatter in _fit._get_model_function_argument_formatters():
+                    if _arg_formatter.arg_name in _keys:
+                        _keys.remove(_arg_formatter.arg_name)
+        if _keys:
+            warnings.warn("Could not assign all parameter names to single fits. Leftover: {}".format(_keys))
 
     def assign_parameter_latex_names(self, **par_latex_names_dict):
         _keys = list(par_latex_names_dict.keys())
